@@ -439,42 +439,55 @@ func lockReentrant(r *engine.Run, rule string, funcs []*ssa.Function, minimum in
 		}
 		return f.Params[0]
 	}
-	// the mutex operand belongs to the receiver: &recv.f or *(&recv.f), possibly through embedded structs
-	ownMutex := func(f *ssa.Function, v ssa.Value) bool {
+	// the mutex operand belongs to the receiver: &recv.f or *(&recv.f), possibly
+	// through embedded structs and through pointer fields loaded from it
+	// (mc := recv.core; mc.mu): the path of field names from the receiver, "" when
+	// the operand is not rooted at the receiver
+	ownPath := func(f *ssa.Function, v ssa.Value) string {
 		rv := recvOf(f)
 		if rv == nil {
-			return false
+			return ""
 		}
 		if u, ok := v.(*ssa.UnOp); ok && u.Op == token.MUL {
 			v = u.X
 		}
-		for {
+		path := ""
+		for i := 0; i < 8; i++ {
 			fa, ok := v.(*ssa.FieldAddr)
 			if !ok {
-				return false
+				return ""
 			}
+			path = "." + fieldName(fa) + path
 			if fa.X == rv {
-				return true
+				return path
 			}
 			v = fa.X
+			if u, ok := v.(*ssa.UnOp); ok && u.Op == token.MUL {
+				v = u.X
+			}
 		}
+		return ""
 	}
+	ownMutex := func(f *ssa.Function, v ssa.Value) bool { return ownPath(f, v) != "" }
 	local := map[*ssa.Function]*engine.FuncLocks{}
-	ownKeys := map[*ssa.Function]map[string]bool{} // keys f locks through its own receiver, and only through it
+	ownKeys := map[*ssa.Function]map[string]bool{}   // keys f locks through its own receiver, and only through it
+	keyPath := map[*ssa.Function]map[string]string{} // ... and the field path from the receiver to that mutex
 	for _, f := range funcs {
 		if len(f.Blocks) == 0 || recvOf(f) == nil {
 			continue
 		}
 		local[f] = engine.LocksIn(f)
 		own, foreign := map[string]bool{}, map[string]bool{}
+		paths := map[string]string{}
 		engine.Instrs(f, func(in ssa.Instruction) {
 			c, ok := in.(*ssa.Call)
 			if !ok {
 				return
 			}
 			if key, op, isLock := engine.LockOp(c); isLock && (op == "Lock" || op == "RLock") {
-				if ownMutex(f, c.Call.Args[0]) {
+				if p := ownPath(f, c.Call.Args[0]); p != "" && (paths[key] == "" || paths[key] == p) {
 					own[key] = true
+					paths[key] = p
 				} else {
 					foreign[key] = true
 				}
@@ -484,13 +497,14 @@ func lockReentrant(r *engine.Run, rule string, funcs []*ssa.Function, minimum in
 			delete(own, k)
 		}
 		ownKeys[f] = own
+		keyPath[f] = paths
 	}
 	heldAt := func(f *ssa.Function, in ssa.Instruction) map[string]bool {
 		out := map[string]bool{}
 		if fl := local[f]; fl != nil {
 			for k := range fl.At[in] {
 				if ownKeys[f][k] {
-					out[k] = true
+					out[k+"@"+keyPath[f][k]] = true
 				}
 			}
 		}
@@ -547,19 +561,20 @@ func lockReentrant(r *engine.Run, rule string, funcs []*ssa.Function, minimum in
 			n++
 			cons := o.next(fn(f) + "|" + op + " " + key)
 			pos := r.P.Pos(c.Pos())
-			if heldAt(f, c)[key] {
+			kp := key + "@" + ownPath(f, c.Call.Args[0])
+			if heldAt(f, c)[kp] {
 				r.Fail(rule, cons, pos, op+" of "+key+" while this function already holds it on the same object: sync mutexes are not reentrant")
 				return
 			}
-			if s, held := entry[f][key]; held {
+			if s, held := entry[f][kp]; held {
 				chain := []string{fn(f)}
 				cur := s
 				for i := 0; i < 8; i++ {
 					chain = append([]string{fn(cur.from)}, chain...)
-					if heldAt(cur.from, cur.at)[key] {
+					if heldAt(cur.from, cur.at)[kp] {
 						break
 					}
-					nx, ok := entry[cur.from][key]
+					nx, ok := entry[cur.from][kp]
 					if !ok {
 						break
 					}
